@@ -67,6 +67,8 @@ def check_layout(ctx, rule, res, only_functions=None, label="", row_order=None):
                             derivation={"fn": e["fn"], "dim": e["dim"], "order": e["order"]})
         elif k == "zip" and "seq" in e:
             orders = [o for o in e["orders"] if "'const'" not in o]
+            if len(e["orders"]) <= 1:
+                continue  # one sequence: nothing is paired
             kk = key(e)
             if not once(("zip", kk, tuple(orders))):
                 continue
